@@ -13,15 +13,39 @@ import (
 )
 
 var aliases = []string{"s", "i", "i8", "i64", "u", "u16", "u64", "b", "ss", "is", "i64s", "us", "bs", "ts", "qt",
-	"i16", "i32", "u8", "u32", "i8s", "u16s", "nt", "n"}
+	"i16", "i32", "u8", "u32", "i8s", "u16s", "nt", "n", "ms", "mis", "f32", "f64", "fs", "f32s", "mf"}
 var hdrAliases = []string{"X-S", "X-I", "X-I8", "X-I64", "X-U", "X-U16", "X-U64", "X-B", "X-Ss", "X-Is", "X-I64s", "X-Us", "X-Bs", "X-Ts", "X-Qt",
-	"X-I16", "X-I32", "X-U8", "X-U32", "X-I8s", "X-U16s", "X-Nt", "N"}
+	"X-I16", "X-I32", "X-U8", "X-U32", "X-I8s", "X-U16s", "X-Nt", "N", "X-Ms", "X-Mis", "X-F32", "X-F64", "X-Fs", "X-F32s", "X-Mf"}
 
 var rawVals = []string{"", "0", "1", "-1", "+1", "127", "128", "-128", "-129", "255", "256", "65535", "65536",
 	"9223372036854775807", "9223372036854775808", "-9223372036854775808", "-9223372036854775809", "18446744073709551615",
 	"18446744073709551616", "00012", "-0", "1_000", "0x10", "1e3", " 1", "1 ", "abc", "true", "false", "TRUE", "True", "t", "T", "f", "F",
 	"on", "off", "yes", "1,2", "1,2,3", ",", "a,b", "a,,b", ",a", "a,", "1,x", "true,false", "héllo", "日本", "a b", "x=y", "a&b", "%", "100%",
 	"[x]", "-", "+", "--1", "٣"}
+
+// rawFloats: texts for the float fields — plain decimals, exponents, the rounding boundaries of
+// float32 / float64 (ties, largest finite, smallest subnormal), overflow, special values, and texts
+// strconv.ParseFloat refuses.
+var rawFloats = []string{"0", "-0", "+0", "1", "1.5", "-2.25", "0.1", "0.3", ".5", "5.", ".", "+", "-", "1e3", "1E3", "1e+3", "1e-3",
+	"1e", "e1", "1e400", "-1e400", "1e-400", "-1e-400", "1e39", "3.4028235e38", "3.4028236e38", "340282346638528859811704183484516925440",
+	"340282356779733661637539395458142568448", "340282356779733661637539395458142568447", "16777217", "16777216.5", "16777219",
+	"9007199254740993", "9007199254740995", "0.1000000000000000055511151231257827", "1.7976931348623157e308", "1.7976931348623159e308",
+	"179769313486231580793728971405303415079934132710037826936173778980444968292764750946649017977587207096330286416692887910946555547851940402630657488671505820681908902000708383676273854845817711531764475730270069855571366959622842914819860834936475292719074168444365510704342711559699508093042880177904174497791",
+	"4.9e-324", "2.4703282292062327e-324", "2.4703282292062328e-324", "1e-45", "7e-46", "7.1e-46", "1.1754943508222875e-38",
+	"inf", "-Inf", "+infinity", "Infinity", "nan", "NaN", "+nan", "infx", "infin", "1_0", "0x1p4", "0x10", "1.2.3", "1,2", "1.5,2.5", "1.5,x",
+	"00.50", "1.", "1e99999", "1e-99999", "1e100000", "0.000000000000000000000000000000000000000000001", "123456789.125", "1e21", "1e22", "1e23",
+	"8.5", "0.5", "0.25", "2.5e-1", "25e-2", "1 ", " 1", "1f", "1d", "٣.٥"}
+
+var floatAlias = map[string]bool{"f32": true, "f64": true, "fs": true, "f32s": true, "mf": true,
+	"X-F32": true, "X-F64": true, "X-Fs": true, "X-F32s": true, "X-Mf": true}
+
+// rawVal draws a raw value for alias a: for the float fields mostly a float text.
+func rawVal(r *gen.Rand, a string) string {
+	if floatAlias[a] && r.Chance(3, 4) {
+		return gen.Pick(r, rawFloats)
+	}
+	return gen.Pick(r, rawVals)
+}
 
 func pctEncodeSome(r *gen.Rand, s string) string {
 	var b strings.Builder
@@ -103,11 +127,12 @@ func genArgs(r *gen.Rand, als []string, brackets bool) string {
 	}
 	var parts []string
 	for i := 0; i < n; i++ {
-		k := cs.cased(r, gen.Pick(r, als))
+		al := gen.Pick(r, als)
+		k := cs.cased(r, al)
 		if brackets {
 			k = keyVariant(r, k)
 		}
-		v := gen.Pick(r, rawVals)
+		v := rawVal(r, al)
 		if r.Chance(1, 6) {
 			v = genString(r, "query", r.Chance(1, 4))
 		}
@@ -226,14 +251,15 @@ func multipartBody(r *gen.Rand) string {
 	// the bound value depend on the iteration order. One spelling per normalised key.
 	seen := map[string]string{}
 	for i := r.Intn(8); i > 0; i-- {
-		k := keyVariant(r, cs.cased(r, gen.Pick(r, aliases)))
+		al := gen.Pick(r, aliases)
+		k := keyVariant(r, cs.cased(r, al))
 		if n, ok := normKey(k); ok {
 			if prev, dup := seen[n]; dup && prev != k {
 				continue
 			}
 			seen[n] = k
 		}
-		v := gen.Pick(r, rawVals)
+		v := rawVal(r, al)
 		if r.Chance(1, 6) {
 			v = genString(r, "query", false)
 		}
@@ -266,11 +292,11 @@ func genRaw(w *gen.Writer, r *gen.Rand, id string, split, auto bool) {
 	case k < 11:
 		var hs []string
 		for i := r.Intn(6); i > 0; i-- {
-			v := gen.Pick(r, rawVals)
+			k := gen.Pick(r, hdrAliases) // canonical spelling: fasthttp normalises header names anyway
+			v := rawVal(r, k)
 			if r.Chance(1, 6) {
 				v = fixString(genString(r, "header", false), "header")
 			}
-			k := gen.Pick(r, hdrAliases) // canonical spelling: fasthttp normalises header names anyway
 			if r.Chance(1, 8) {
 				k = gen.Pick(r, []string{"X-Unknown", "X-S[0]", "X-Ss[]", "Accept", "X-[", "X-]"})
 			}
@@ -281,11 +307,12 @@ func genRaw(w *gen.Writer, r *gen.Rand, id string, split, auto bool) {
 		var parts []string
 		cs := casing{}
 		for i := r.Intn(6); i > 0; i-- {
-			v := gen.Pick(r, rawVals)
+			al := gen.Pick(r, aliases)
+			v := rawVal(r, al)
 			if r.Chance(1, 6) {
 				v = genString(r, "cookie", false)
 			}
-			k := cs.cased(r, gen.Pick(r, aliases))
+			k := cs.cased(r, al)
 			if r.Chance(1, 5) {
 				k = keyVariant(r, k) // the cookie binder does NOT normalise brackets: these keys stay literal
 			}
